@@ -41,6 +41,7 @@ import (
 	sdk "github.com/cosmos/cosmos-sdk/types"
 	banktypes "github.com/cosmos/cosmos-sdk/x/bank/types"
 	"github.com/cosmos/cosmos-sdk/x/capability"
+	stakingtypes "github.com/cosmos/cosmos-sdk/x/staking/types"
 	"github.com/cosmos/cosmos-sdk/x/upgrade"
 	abci "github.com/tendermint/tendermint/abci/types"
 	tmproto "github.com/tendermint/tendermint/proto/tendermint/types"
@@ -748,6 +749,76 @@ func sizeThresholdHistory(seed uint64, rng *Rng) *Pilot {
 	return p
 }
 
+// ---- history: staking-cap -------------------------------------------------------------------------
+// Twenty validators of 5 % each; signed transactions of 5-8 MsgDelegate / MsgBeginRedelegate to DISTINCT validators in
+// which one message, at a random position, crosses the 6.6 % voting-power cap: rejected by the ante handler after a
+// number of gas-metered projections that must depend on the message order only.  Accepted multi-delegations too.
+
+func stakingCapHistory(seed uint64, rng *Rng) *Pilot {
+	powers := make([]int64, 20)
+	for i := range powers {
+		powers[i] = 10
+	}
+	p := NewPilot("staking-cap", seed, rng, GenesisOpts{NUsers: 6, ValPowers: powers, EpochSeconds: 3600}, 600)
+	stake := func(n int64, exp int64) sdk.Coin { return coin("stake", new(big.Int).Mul(big.NewInt(n), pow10(exp))) }
+	distinct := func(k int) []int {
+		perm := make([]int, len(p.W.Vals))
+		for i := range perm {
+			perm[i] = i
+		}
+		for i := len(perm) - 1; i > 0; i-- {
+			j := p.R.Intn(i + 1)
+			perm[i], perm[j] = perm[j], perm[i]
+		}
+		return perm[:k]
+	}
+	for b := 0; b < 8; b++ {
+		p.Begin()
+		for t := 0; t < 3; t++ {
+			u := p.W.Users[p.R.Intn(len(p.W.Users)-1)]
+			k := 5 + p.R.Intn(4)
+			vs := distinct(k)
+			over := p.R.Intn(k)
+			if t == 2 {
+				over = -1 // every message within the cap: accepted
+			}
+			var msgs []sdk.Msg
+			for i, v := range vs {
+				amt := stake(int64(1+p.R.Intn(9)), 15)
+				if i == over {
+					amt = stake(int64(5+p.R.Intn(5)), 18) // (10+5)/(200+5) > 6.6 %
+				}
+				msgs = append(msgs, stakingtypes.NewMsgDelegate(u.Addr, sdk.ValAddress(p.W.Vals[v].Addr), amt))
+			}
+			label := "staking.multidelegate.overcap"
+			if over < 0 {
+				label = "staking.multidelegate.ok"
+			}
+			p.Tx(label, u, msgs...)
+		}
+		if b >= 2 { // redelegations of a validator's self-delegation to several destinations, one over the cap
+			src := p.R.Intn(len(p.W.Vals))
+			op := p.W.Vals[src]
+			var msgs []sdk.Msg
+			vs := distinct(5)
+			over := p.R.Intn(len(vs))
+			for i, v := range vs {
+				if v == src {
+					continue
+				}
+				amt := stake(int64(1+p.R.Intn(9)), 14)
+				if i == over {
+					amt = stake(4, 18)
+				}
+				msgs = append(msgs, stakingtypes.NewMsgBeginRedelegate(op.Addr, sdk.ValAddress(op.Addr), sdk.ValAddress(p.W.Vals[v].Addr), amt))
+			}
+			p.Tx("staking.multiredelegate", op, msgs...)
+		}
+		p.End()
+	}
+	return p
+}
+
 // restartGasProbe attributes the extra BeginBlock gas of a restarted node: it replays the history up to the
 // first restart point on two chains, restarts one of them, and runs the two BeginBlockers that keep
 // process-local "already done" state on a context with a fresh infinite gas meter.
@@ -812,6 +883,7 @@ func init() {
 			func() (*Pilot, string) { return poollessHistory(seed, rng), "poolless-prefix" },
 			func() (*Pilot, string) { return marginSQHistory(seed, rng), "margin-stress-queue" },
 			func() (*Pilot, string) { return sizeThresholdHistory(seed, rng), "size-thresholds" },
+			func() (*Pilot, string) { return stakingCapHistory(seed, rng), "staking-cap" },
 			func() (*Pilot, string) { return ghostHistory(seed, rng, false), "genesis-lps-without-accounts.lppd" },
 			func() (*Pilot, string) { return ghostHistory(seed, rng, true), "genesis-lps-without-accounts.epoch" },
 		} {
